@@ -112,7 +112,7 @@ Definition run_c14_query (g : graph) (q : sexp) : sexp :=
   match q with
   | L [A s; impl] =>
       let holds := c14_holds g s impl in
-      L ([lookups g s; of_bool holds] ++ (if holds then [] else c14_class g s))
+      L ([lookups g s; judge holds] ++ (if holds then [] else c14_class g s))
   | _ => decode_error
   end.
 
@@ -158,7 +158,7 @@ Definition graph_elem (g : graph) (impl_specifiers : list (N * N)) : sexp :=
                                enc_opt_spec (resolve_dependency g (snd q) (fst q) false);
                                enc_opt_spec (resolve_dependency g (snd q) (fst q) true)])
                   (all_dep_queries g));
-      of_bool holds]
+      judge holds]
      ++ (if holds then [] else if known then [of_atoms [CLASSTAG; 1403]] else [])).
 
 Definition run_c14 (input : sexp) : sexp :=
